@@ -287,6 +287,33 @@ def gen(tier, seed):
                 if end and not (pushes and s.steps[-1].endswith(end)):
                     s.steps.append(end)
                 add(s)
+    # 4b. a heartbeat (or two) between any two steps changes nothing: the good path, the drop after
+    #     StartOk (InvalidCredentials), the Secure challenge, a server close instead of Tune / OpenOk
+    flows = [([F_start(), tune_ok, F_OPENOK], None), ([F_start()], "eof"), ([F_start()], "reset"), ([F_start(), F_SECURE], None),
+             ([F_start(), F_close(403, "ACCESS_REFUSED")], None), ([F_start(), tune_ok], "eof"), ([F_start(), tune_ok, F_close(530, "NOT_ALLOWED - vhost")], None)]
+    for frames, end in flows:
+        for pos in range(1, len(frames) + 1):
+            for nhb in (1, 2):
+                for same_push in (False, True):
+                    if tier == "quick" and nhb == 2 and same_push:
+                        continue
+                    s = Script(default_opts(timeout="400"))
+                    for i, f in enumerate(frames):
+                        s.push([f])
+                        if i + 1 == pos:
+                            nxt = frames[i + 1:i + 2]
+                            if same_push and nxt:
+                                # the heartbeat(s) and the next frame arrive together
+                                s.push([F_HB] * nhb + nxt)
+                                frames_rest = frames[i + 2:]
+                                for g in frames_rest:
+                                    s.push([g])
+                                break
+                            for _ in range(nhb):
+                                s.push([F_HB])
+                    if end:
+                        s.steps.append(end)
+                    add(s)
     # 5. Secure, Close, out-of-order and foreign frames, heartbeats, malformed frames at every position
     alphabet = [F_start(), F_SECURE, tune_ok, F_OPENOK, F_close(530, "NOT_ALLOWED - vhost"), F_HB, F_BAD] + others()[: (3 if tier == "quick" else 7)]
     L = 3 if tier == "quick" else 4
